@@ -206,13 +206,19 @@ Proof.
   induction fuel as [|fuel IH]; intros st links sub Hlen Hsub Hinv Hpsi.
   { unfold psi in Hpsi. pose proof (nd_nonneg (a_dirty st)). destruct (in_run st links); lia. }
   cbn [akai_walk].
-  destruct (Z.geb_spec sub size) as [Hge|Hlt]; [discriminate|].
+  destruct (Z.geb_spec sub size) as [Hge|Hlt].
+  { destruct (a_prev_dir st && negb match links with [] => true | _ => false end); [|discriminate].
+    destruct (add_links links (a_links st)) eqn:EA; cbn [bind]; try discriminate.
+    exfalso. eapply add_links_fuel; eassumption. }
   set (v := znth 0 block sub) in *.
   assert (Hv : 0 <= v) by (apply znth_nonneg; assumption).
   destruct (negb (is_dir_word v) && a_prev_dir st && negb match links with [] => true | _ => false end) eqn:B1.
   { destruct (add_links links (a_links st)) eqn:EA; cbn [bind]; try discriminate.
     exfalso. eapply add_links_fuel; eassumption. }
-  destruct ((v =? SAT_FREE) || ((v <? size) && znth false (a_dirty st) v)) eqn:B2; [discriminate|].
+  destruct ((v =? SAT_FREE) || ((v <? size) && znth false (a_dirty st) v)) eqn:B2.
+  { destruct (negb (v =? SAT_FREE) && negb (v =? sub) && negb (existsb (Z.eqb v) links)); [|discriminate].
+    destruct (add_links (links ++ [sub]) (a_links st)) eqn:EA; cbn [bind]; try discriminate.
+    exfalso. eapply add_links_fuel; eassumption. }
   destruct (v =? SAT_EOF) eqn:B3.
   { destruct (add_links (links ++ [sub]) (a_links st)) eqn:EA; cbn [bind]; try discriminate.
     exfalso. eapply add_links_fuel; eassumption. }
@@ -255,11 +261,17 @@ Lemma akai_walk_len block size :
 Proof.
   induction fuel as [|fuel IH]; intros st links sub st' H; [discriminate|].
   cbn [akai_walk] in H.
-  destruct (sub >=? size); [injection H as <-; auto|].
-  destruct (negb _ && _ && _).
+  destruct (sub >=? size).
+  { destruct (a_prev_dir st && negb match links with [] => true | _ => false end); [|injection H as <-; auto].
+    destruct (add_links links (a_links st)) eqn:EA; cbn [bind] in H; try discriminate.
+    injection H as <-. cbn. split; [reflexivity|]. eapply add_links_length; eassumption. }
+  destruct (negb (is_dir_word (znth 0 block sub)) && a_prev_dir st && negb match links with [] => true | _ => false end).
   { destruct (add_links links (a_links st)) eqn:EA; cbn [bind] in H; try discriminate.
     injection H as <-. cbn. split; [reflexivity|]. eapply add_links_length; eassumption. }
-  destruct (_ || _); [injection H as <-; cbn; rewrite upd_length; auto|].
+  destruct (_ || _).
+  { destruct (negb _ && negb _ && negb _); [|injection H as <-; cbn; rewrite upd_length; auto].
+    destruct (add_links (links ++ [sub]) (a_links st)) eqn:EA; cbn [bind] in H; try discriminate.
+    injection H as <-. cbn. rewrite !upd_length. split; [reflexivity|]. eapply add_links_length; eassumption. }
   destruct (_ =? SAT_EOF).
   { destruct (add_links (links ++ [sub]) (a_links st)) eqn:EA; cbn [bind] in H; try discriminate.
     injection H as <-. cbn. rewrite upd_length. split; [reflexivity|]. eapply add_links_length; eassumption. }
@@ -388,7 +400,7 @@ Definition listZ_eqb (a b : list Z) : bool :=
 Definition chain_ok (block : list Z) (s : Z) : bool :=
   match raw_chain (S (length block)) block [] s with
   | Some c =>
-      if linked_once block c && head_is_min c then
+      if linked_once block c then
         match akai_get_segment block s with Ok p => listZ_eqb p c | _ => false end
       else true
   | None => true
@@ -411,20 +423,34 @@ Definition akai_decode_chain_statement : Prop :=
   forall block s c,
     Forall (fun w => 0 <= w < 65536) block ->
     raw_chain (S (length block)) block [] s = Some c ->
-    linked_once block c = true -> head_is_min c = true ->
+    linked_once block c = true ->
     akai_get_segment block s = Ok c.
 
-(** Without "head is the lowest sector" it is FALSE of the faithful model (finding D4). *)
-Lemma akai_chain_head_not_lowest_refuted_lemma :
-  exists block s c,
-    raw_chain (S (length block)) block [] s = Some c /\ linked_once block c = true /\
-    akai_get_segment block s <> Ok c.
-Proof.
-  exists [0; 0; 0; 5; 0; SAT_EOF; 0; 3], 7, [7; 3; 5]. vm_compute. repeat split; discriminate.
-Qed.
+(** After the D4 fix the head of a chain need not be its lowest sector: the former
+    counterexample (7 -> 3 -> 5) now resolves exactly. *)
+Lemma akai_chain_head_not_lowest_fixed_lemma :
+  akai_get_segment [0; 0; 0; 5; 0; SAT_EOF; 0; 3] 7 = Ok [7; 3; 5].
+Proof. vm_compute. reflexivity. Qed.
 
-(** A reserved-flag run that reaches the last table entry is not installed (finding D11). *)
-Lemma akai_dir_run_at_table_end_refuted_lemma :
-  akai_get_segment [0; 0; 0; SAT_RES_STD; SAT_RES_STD] 3 = Ok [3]
+(** After the D11 fix a reserved-flag run that reaches the last table entry is installed. *)
+Lemma akai_dir_run_at_table_end_fixed_lemma :
+  akai_get_segment [0; 0; 0; SAT_RES_STD; SAT_RES_STD] 3 = Ok [3; 4]
   /\ akai_get_segment [0; 0; 0; SAT_RES_STD; SAT_RES_STD; 0] 3 = Ok [3; 4].
 Proof. vm_compute. split; reflexivity. Qed.
+
+(** directory runs, bounded like the chains: from the first sector of a maximal run of
+    reserved-flag words (preceded by a non-reserved word or the table start) resolution
+    yields exactly the run *)
+Fixpoint run_from (fuel : nat) (block : list Z) (cur : Z) : list Z :=
+  match fuel with
+  | O => []
+  | S f => if (cur <? zlen block) && is_dir_word (znth 0 block cur) then cur :: run_from f block (cur + 1) else []
+  end.
+Definition run_ok (block : list Z) (s : Z) : bool :=
+  if is_dir_word (znth 0 block s) && ((s =? 0) || negb (is_dir_word (znth 0 block (s - 1)))) then
+    match akai_get_segment block s with Ok p => listZ_eqb p (run_from (length block) block s) | _ => false end
+  else true.
+Definition all_runs_ok (n : nat) : bool :=
+  forallb (fun b => forallb (fun s => run_ok b (Z.of_nat s)) (seq 0 n)) (all_tables n (akai_words n)).
+Lemma akai_run_small_scope_all : all_runs_ok 1 && all_runs_ok 2 && all_runs_ok 3 && all_runs_ok 4 = true.
+Proof. vm_compute. reflexivity. Qed.
